@@ -702,17 +702,20 @@ partial def reviewStep (tid : Nat) (n : Node) : M Bool := do
   if t.state.isRunning then
     let kids := childrenOf (← get).p tid
     let mut count := 0
+    let mut resumed := false
     for k in kids do
       let kt ← getTask k.tid
       if kt.state.isPending then
         if (← isReady k.tid) then
-          -- resumed through the queue (`ctx.runtime.push`)
+          -- resumed through the queue (`ctx.runtime.push`); the other waiting branches are looked at as well
           setState k.tid .running
           taskEvent k.tid
           modify fun w => { w with queue := w.queue ++ [(w.p.pid, k.tid)] }
-          return false
+          resumed := true
+          continue
       let kt ← getTask k.tid
       if kt.state.isCompleted then count := count + 1
+    if resumed then return false
     if count == kids.length && !hasOpenAct (← get).p tid then
       let t ← getTask tid
       if !t.state.isCompleted then setState tid .completed
